@@ -18,7 +18,7 @@ import sys
 import tempfile
 
 from .. import tlc, vloop
-from ..core import Check, MachineryFailure, REPO
+from ..core import Check, MachineryFailure
 from ..simnet import SimNet
 from ..simserver import ScriptedServer, ScriptedPeer, make_settings, make_client, SERVER_PORT
 
@@ -30,7 +30,7 @@ ACTIONS = ['Start', 'Login', 'Advertise', 'BurstEnd', 'ServerLoss', 'UserDisconn
            'Spawn', 'PeerOpens', 'PeerIn']
 
 LONG = 700.0            # longer than every timer of the library (ping 300 s, tracking retry 600 s)
-SLACK_MS = 200
+SLACK_MS = 5000         # tolerance on 'a reconnect attempt begins reconnect.timeout + one poll after the loss'
 
 
 # ---------------------------------------------------------------------------
@@ -66,7 +66,6 @@ def stimuli_of(labels) -> tuple:
     login_idx = None          # index in `out` of the stimulus whose login burst is running
     spawn_idx = {}
     wake = False               # WatchdogWake seen, outcome not yet
-    stopped = False
     for lab in labels:
         name, a = _parse_label(lab)
         if name == 'Start':
@@ -96,8 +95,6 @@ def stimuli_of(labels) -> tuple:
                 in_burst = False
             else:
                 out.append(list(what))
-            if name == 'StopBegin':
-                stopped = True
         elif name == 'WatchdogWake':
             wake = True
         elif name == 'ReconnectOk':
@@ -131,10 +128,6 @@ def stimuli_of(labels) -> tuple:
 # ---------------------------------------------------------------------------
 # recording helpers
 # ---------------------------------------------------------------------------
-
-def _src_root():
-    return os.path.join(os.environ.get('VERIF_REPO', REPO), 'src')
-
 
 def _task_kind(task) -> str | None:
     """Kind of a pending task, or None when it is not running library code.  Names are only used
@@ -187,6 +180,13 @@ class Names:
 
     def abstract(self, concrete: str) -> str:
         return self.a.get(concrete, '?' + str(concrete)[:20])
+
+    @classmethod
+    def from_map(cls, c: dict) -> 'Names':
+        self = cls.__new__(cls)
+        self.c = dict(c)
+        self.a = {v: k for k, v in self.c.items()}
+        return self
 
 
 def frame_of(msg, M, nm: Names, ports) -> list:
@@ -631,7 +631,9 @@ class Runner:
                         await flush_injection()
                     else:
                         st['inj'] = None
-                    await quiesce(0.01)
+                    # "first quiescence after the login": half a second, so that an implementation may defer
+                    # part of the advertisement a little
+                    await quiesce(0.5)
                 elif op == 'loss':
                     if client.network.server_connection.state.name == 'CONNECTED' and srv.sessions \
                             and not srv.sessions[-1].closed:
@@ -656,7 +658,7 @@ class Runner:
                         await flush_injection()
                     else:
                         st['inj'] = None
-                    await quiesce(0.01)
+                    await quiesce(0.5)
                     if gate is not None:
                         st['gate'] = gate
                 elif op == 'userdisc':
@@ -667,6 +669,7 @@ class Runner:
                     stopped = True
                 elif op == 'exec':
                     n0 = len(srv.requests(M.GetUserStatus.Request))
+                    rec('exec_call')
                     try:
                         await guarded(client.execute(GetUserStatusCommand('vip1')))
                         res = 'sent'
@@ -886,6 +889,47 @@ def _fingerprints(info, trace) -> list:
 
 # ---------------------------------------------------------------------------
 
+def _freeze(x):
+    return tuple(_freeze(y) for y in x) if isinstance(x, (list, tuple)) else x
+
+
+def replay(chk: Check, data: dict):
+    """./check C16 --replay PATH: run the schedule of a replay file again on the current tree and judge it."""
+    import random
+    chk.rng = random.Random(data.get('seed', chk.seed))
+    meta = data['replay']['meta']
+    cfg, stim, c = _freeze(meta['cfg']), _freeze(meta['stimuli']), meta['conc']
+    conc = dict(names=Names.from_map(c['names']), ports=tuple(c['ports']), T=c['T'], variant=c['variant'],
+                notice=c.get('notice', 'ack'))
+    tmp = tempfile.mkdtemp(prefix='c16-')
+    try:
+        # the share trees are drawn first from the run's seed, exactly as in the recorded run
+        runner = Runner(tmp, ShareTrees(os.path.join(tmp, 'shares'), chk.rng))
+        trace = runner.run(cfg, stim, conc)
+    finally:
+        shutil.rmtree(tmp, ignore_errors=True)
+    for e in trace:
+        chk.log('  ' + str(e)[:200])
+    chk.count(('replay', repr(meta)))
+    chk.sample(dict(meta=meta, trace=trace[:80]))
+    v = tlc.validate_traces(TRACE, 'Trace.cfg', [trace], max_diag=0)
+    chk.cov['traces_validated_against_impl'] += 1
+    chk.add_trace_run(v.result)
+    if v.rejected:
+        vm = tlc.validate_traces(TRACE, 'TraceMarks.cfg', [trace], max_diag=0)
+        marks = sorted(vm.accepted.get(1, ()))
+        if marks:
+            for mk in marks:
+                chk.violation(f'C16:{mk}', f'property instance {mk} is false in the replayed run',
+                              dict(trace=trace, meta=meta))
+        else:
+            info = tlc.diagnose_trace(TRACE, 'TraceDiag.cfg', trace, constraint_cfg='Trace.cfg')
+            for fp in _fingerprints(info, trace):
+                chk.violation(fp, f"{info.get('kind')}: {info.get('name')} at event #{info.get('at')} "
+                                  f"{str(info.get('event'))[:300]}", dict(trace=trace, meta=meta, verdict=info))
+    chk.log('replayed run ' + ('REJECTED' if v.rejected else 'accepted'))
+
+
 def run(chk: Check, args):
     global _RUNNER
     from concurrent.futures import ThreadPoolExecutor
@@ -900,9 +944,10 @@ def run(chk: Check, args):
                        'network in virtual time with a seeded concretisation (names, ports, reconnect timeout, '
                        'connect hang/delay, who notices a dead socket, share trees); distinct = distinct recorded '
                        'traces; non-trivial = a session was initialised or a loss / stop was observed')
-    switches = ['autojoin', 'dist', 'watchdog', 'timers', 'selfawait', 'queueonce']
+    switches = ['autojoin', 'dist', 'watchdog', 'timers', 'staleinit', 'selfawait', 'queueonce']
     want = {'autojoin': {'AdvertisedOnly', 'AdvertisedExactly'}, 'dist': {'StopIsFinal'},
             'watchdog': {'ReconnectOnlyIf', 'StopIsFinal'}, 'timers': {'StopIsFinal'},
+            'staleinit': {'StopIsFinal', 'AdvertisedExactly'},
             'selfawait': {'SessionOnConnection', 'DestroyedOncePerLoss', 'DerivedCleared'},
             'queueonce': {'StopIsFinal'}}
 
@@ -957,8 +1002,8 @@ def run(chk: Check, args):
         for k, v in sweep.items():
             scheds.setdefault(k, v)
     else:
-        keys = select(scheds, 900, chk.rng)
-    extra = [k for k in select(sims, 600 if thorough else 200, chk.rng) if k not in scheds]
+        keys = select(scheds, 1300, chk.rng)
+    extra = [k for k in select(sims, 600 if thorough else 250, chk.rng) if k not in scheds]
     for k in extra:
         scheds[k] = sims[k]
     keys += extra
@@ -1013,7 +1058,8 @@ def run(chk: Check, args):
         odd = [tid for i, tid in enumerate(rej, start=1) if not vm.accepted.get(i)]
         pick = odd if len(odd) <= 24 else [odd[i * len(odd) // 24] for i in range(24)]
         with ThreadPoolExecutor(max_workers=4) as ex:
-            diags = list(ex.map(lambda tid: tlc.diagnose_trace(TRACE, 'TraceDiag.cfg', traces[tid - 1]), pick))
+            diags = list(ex.map(lambda tid: tlc.diagnose_trace(TRACE, 'TraceDiag.cfg', traces[tid - 1],
+                                                               constraint_cfg='Trace.cfg'), pick))
         for tid, info in zip(pick, diags):
             v.rejected[tid] = info
             what = (f"trace {tid} {info.get('kind')}: {info.get('name')} at event #{info.get('at')} "
@@ -1121,9 +1167,9 @@ def run(chk: Check, args):
         'rejoin rooms when logon is successful"; reconnect.auto: no attempt after disconnecting / server closed)',
         'AddUser for the own user name, CheckPrivileges and every non-advertisement frame are not constrained; '
         'advertisement frames after the first quiescence of a session are not constrained',
-        'quiescence = the ready queue is empty 10 virtual ms after the stimulus; "after stop() returns" is '
-        'observed after the ready queue has drained once, without advancing time',
-        'a reconnect attempt is due reconnect.timeout + 0.5 s (watchdog poll) + 0.2 s after the CLOSED event',
+        'quiescence = the ready queue is empty 10 virtual ms after the stimulus (500 ms after a login); "after '
+        'stop() returns" is observed after the ready queue has drained once, without advancing time',
+        'a reconnect attempt is due reconnect.timeout + 0.5 s (watchdog poll) + 5 s after the CLOSED event',
         'the simulated transport delivers EOF / reset / write failure / blocked writes, not kernel-specific orders',
         'library task = a pending asyncio task whose coroutine code lives under src/aioslsk',
         'no stimulus is modelled between the watchdog\'s connect and its automatic login',
